@@ -107,6 +107,13 @@ fn round_trip<const N: usize>(case: &Case, obs: &mut Obs) -> PropResult {
 	if t1 != t2 {
 		return Err(format!("written text depends on insertion order:\n--- order {}\n{t1}\n--- order {}\n{t2}", case.order1, case.order2));
 	}
+	// history: a read that fails (the text cut in the middle of a line, and with its header damaged) comes first
+	if t1.len() > 12 {
+		let cut = t1.len() * 2 / 3;
+		let cut = (cut..t1.len()).find(|i| t1.is_char_boundary(*i)).unwrap_or(t1.len());
+		let _ = crate::engine::no_panic(|| quill::tiny_v2::read::<N, Ns>(t1[..cut].as_bytes()).is_ok());
+		let _ = crate::engine::no_panic(|| quill::tiny_v2::read::<N, Ns>(t1[4..].as_bytes()).is_ok());
+	}
 	let r = quill::tiny_v2::read::<N, Ns>(t1.as_bytes()).map_err(|e| format!("reading the written text failed: {e:#}\n{t1}"))?;
 	let back = from_quill(&r).map_err(|e| format!("read result inconsistent: {e:#}\n{t1}"))?;
 	// the namespace check callers use after reading: holds for the namespaces written, fails for any other list
